@@ -61,6 +61,9 @@ def rnd(rng, ty):
     if k == "bytes":
         return bytes(rng.randrange(1, 256) for _ in range(rng.randrange(1, 4)))
     if k == "float":
+        if ty.under == "float64" and rng.random() < 0.5:
+            # not representable in float32: a conversion detour through float32 changes the value
+            return rng.randrange(1, 4000) / 10.0 + 0.1
         return rng.randrange(1, 400) / 4.0
     if k == "bool":
         return rng.random() < 0.5
